@@ -162,6 +162,13 @@ Proof. induction a; simpl; intros H; [constructor|]. inversion H; subst. constru
 Lemma NoDup_app_r {A} (a b : list A) : NoDup (a ++ b) -> NoDup b.
 Proof. induction a; simpl; auto. intros H; inversion H; auto. Qed.
 
+Lemma NoDup_snoc {A} (l : list A) x : NoDup l -> ~ In x l -> NoDup (l ++ [x]).
+Proof.
+  induction l; simpl; intros H Hn.
+  - constructor; auto.
+  - inversion H; subst. constructor; [rewrite in_app_iff; simpl; intuition | apply IHl; tauto].
+Qed.
+
 Lemma NoDup_app_disj {A} (a b : list A) x : NoDup (a ++ b) -> In x a -> In x b -> False.
 Proof.
   induction a; simpl; [tauto|]. intros H [H1|H1] H2; inversion H; subst.
@@ -279,7 +286,7 @@ Proof.
   - intros H. simpl. rewrite (IH H2 H). lia.
 Qed.
 
-Lemma hset_ids h v l : map fst (hset h v l) = map fst l.
+Lemma hset_ids {V} h (v : V) (l : list (N * V)) : map fst (hset h v l) = map fst l.
 Proof.
   induction l as [|[h2 v2] r IH]; simpl; auto. destruct (h =? h2); simpl; rewrite ?IH; auto.
 Qed.
@@ -289,11 +296,11 @@ Lemma sumres_hset h hd v l :
 Proof.
   induction l as [|[h2 v2] r IH]; simpl; [discriminate|].
   destruct (h =? h2).
-  - intros H; inversion H; subst. intros ->. simpl. auto.
+  - intros H; inversion H; subst. intros Hr. simpl. rewrite Hr. auto.
   - intros H1 H2. simpl. rewrite IH; auto.
 Qed.
 
-Lemma hset_In h v l e : In e (hset h v l) -> In e l \/ snd e = v.
+Lemma hset_In {V} h (v : V) (l : list (N * V)) e : In e (hset h v l) -> In e l \/ snd e = v.
 Proof.
   induction l as [|[h2 v2] r IH]; simpl; [tauto|].
   destruct (h =? h2); simpl; intros [H|H]; subst; auto. apply IH in H; tauto.
@@ -342,9 +349,10 @@ Proof.
     repeat split; auto; try discriminate; try lia. destruct s'; reflexivity.
   - destruct (evict (index s) (measure s) (files s) (pending_size s + n) (cap s)) as [ok' [[idx m] fs]] eqn:Ev.
     inversion H; subst. apply evict_spec in Ev as (pre & H1 & H2 & H3 & H4 & H5).
-    exists pre, idx, m. subst fs. repeat split; auto.
-    + intros Hm Hf. rewrite H5 in Hf; auto; try discriminate. lia.
-    + intros Hm Hf. rewrite H5 in Hf; auto; try discriminate. lia.
+    exists pre, idx, m. subst fs.
+    assert (Hle : pending_size s + n <= cap s) by lia.
+    split; [reflexivity|]. split; [auto|]. split; [auto|]. split; [auto|]. split; [auto|].
+    intros Hm Hf. rewrite H5 in Hf; auto; discriminate.
 Qed.
 
 Lemma lru_insert_spec s k v :
@@ -416,7 +424,7 @@ Proof.
   rewrite lru_insert_spec; auto; try lia.
   split; [|exact Hh]. unfold acct; simpl. repeat split; auto; try lia.
   - rewrite sumsz_app. simpl. lia.
-  - rewrite keys_app. simpl. apply NoDup_remove_inv_app.
-    + rewrite app_nil_r. apply NoDup_aremove; auto.
-    + rewrite app_nil_r, keys_aremove. tauto.
+  - rewrite keys_app. simpl. apply NoDup_snoc.
+    + apply NoDup_aremove; auto.
+    + rewrite keys_aremove. tauto.
 Qed.
